@@ -612,6 +612,57 @@ theorem history_one_entry_per_epoch {ev : Option EvCfg} {hasVal : Bool} {ds : Li
     rw [← hget]
     exact hlen kv.1 hmem
 
+/-! ### a Trainer used again: every `fit` call returns the history of THAT call -/
+
+/-- **Second and later `fit` calls.**  Successive `fit` calls on one compiled Trainer (any numbers of epochs, each with or
+    without a validation loader), started with an evaluator that holds nothing: every call that returns leaves the evaluator
+    empty again, and the history it returns has exactly the keys of ITS configuration, each with exactly as many entries as
+    ITS epochs — nothing of the earlier calls is in it. -/
+theorem refit_history_one_entry_per_epoch {ev : Option EvCfg} (names : List String)
+    (hn : match ev with | none => True | some cfg => CbNames cfg.epochCb names)
+    (hnd : ∀ hv, (epochKeys ev names hv).Nodup) :
+    ∀ (calls : List (Bool × List EpochData)) (st : EvState) (Hs : List Hist),
+      refits ev EvState.empty calls = some (st, Hs) →
+      st = EvState.empty ∧
+      List.Forall₂ (fun (c : Bool × List EpochData) (H : Hist) =>
+        H.map Prod.fst = (if c.2 = [] then [] else epochKeys ev names c.1) ∧ ∀ kv ∈ H, kv.2.length = c.2.length) calls Hs := by
+  intro calls
+  induction calls with
+  | nil => intro st Hs h; simp [refits] at h; obtain ⟨rfl, rfl⟩ := h; exact ⟨rfl, List.Forall₂.nil⟩
+  | cons c cs ih =>
+    intro st Hs h
+    simp only [refits] at h
+    cases hf : fitHist ev c.1 EvState.empty c.2 with
+    | none => simp [hf] at h
+    | some p =>
+      obtain ⟨s1, H⟩ := p
+      have hs1 : s1 = EvState.empty := (fitV_spec ev c.1 c.2 [] H s1 hf).1
+      subst hs1
+      simp only [hf] at h
+      cases hr : refits ev EvState.empty cs with
+      | none => simp [hr] at h
+      | some q =>
+        obtain ⟨s2, Hs'⟩ := q
+        simp only [hr, Option.map_some, Option.some.injEq, Prod.mk.injEq] at h
+        obtain ⟨rfl, rfl⟩ := h
+        obtain ⟨e1, e2⟩ := ih s2 Hs' hr
+        obtain ⟨_, k2, k3⟩ := history_one_entry_per_epoch (ev := ev) (hasVal := c.1) (ds := c.2) names hn (hnd c.1) hf
+        exact ⟨e1, List.Forall₂.cons ⟨k2, k3⟩ e2⟩
+
+/-- a session that consists of `fit` calls is `refits`; `test` in between changes nothing that a later call sees -/
+theorem session_test_transparent (ev : Option EvCfg) (st : EvState) (b : List (List Sample)) (cs : List Call) :
+    session ev st (.test b :: cs) =
+      (session ev st cs).map (fun p => (p.1, Ret.testRet (testReturn b).1 (testReturn b).2 :: p.2)) := by
+  simp [session, Call.run]
+
+/-- the dictionary a `fit` call returns does not depend on what the Trainer returned before: in a session, the answer of a
+    `fit` call is `fitHist` of that call's own arguments and of the evaluator state the call found -/
+theorem session_fit_fresh (ev : Option EvCfg) (st : EvState) (hv : Bool) (ds : List EpochData) (cs : List Call) :
+    session ev st (.fit hv ds :: cs) =
+      (fitHist ev hv st ds).bind (fun r => (session ev r.1 cs).map (fun p => (p.1, Ret.hist r.2 :: p.2))) := by
+  simp only [session, Call.run]
+  cases fitHist ev hv st ds <;> simp
+
 /-- `Trainer.test` returns one output row and one label per sample of the loader, in loader order -/
 theorem test_returns_all_samples (batches : List (List Sample)) :
     (testReturn batches).1 = batches.flatten.map (·.score) ∧ (testReturn batches).2 = batches.flatten.map (·.label) ∧
@@ -662,6 +713,12 @@ example : (fitHist (some { cfgMC with epochCb := some (fun _ _ => [("loss", .cb 
 example : (fitHist (some cfgMC) false ⟨[0, 0, 0], [1, 1, 1]⟩
       [⟨[⟨0, [⟨[1], [1, 5]⟩, ⟨[0], [3, 3]⟩]⟩], []⟩, ⟨[⟨0, [⟨[1], [1, 5]⟩, ⟨[0], [3, 3]⟩]⟩], []⟩]).map (·.2)
     = some [("loss", [.num 0, .num 0]), ("accuracy", [.frac 2 5, .frac 2 2])] := by
+  decide +kernel
+
+/-- fit for two epochs, then for one more on the same trainer: the second history has ONE entry per key -/
+example : (refits (some cfgMC) EvState.empty
+      [(false, [⟨[⟨1/2, [⟨[1], [1, 5]⟩]⟩], []⟩, ⟨[⟨1/4, [⟨[0], [1, 5]⟩]⟩], []⟩]), (false, [⟨[⟨1, [⟨[1], [1, 5]⟩]⟩], []⟩])]).map (·.2)
+    = some [[("loss", [.num (1/2), .num (1/4)]), ("accuracy", [.frac 1 1, .frac 0 1])], [("loss", [.num 1]), ("accuracy", [.frac 1 1])]] := by
   decide +kernel
 
 /-- a metric value that is not a float, a loader without batches: `fit` does not return -/
